@@ -1,20 +1,26 @@
 /-
 C08 — comments, whitespace and letter case never change what is parsed.
 
-Proved on the lexer model (lexing is independent of parsing, so what holds for the token stream
-holds for valid and invalid messages alike):
- * a comment's text is whatever stands between `//` and the line end — any bytes at all — and
-   the lexer resumes at the line end in the mode it was in, having emitted only a comment token,
-   which the parser drops (`comment_any_bytes`, `comment_token_header`, `comment_token_text`);
-   trailing blanks, tabs and CRs are not part of the comment (`comment_trim`);
- * one more blank before a token changes nothing but the position (`blank_skipped`);
+Proved on the lexer and parser models (lexing is independent of parsing, so what holds for the
+token stream holds for valid and invalid messages alike):
+ * a comment's text is whatever stands between `//` and the line end — any bytes at all — and the
+   lexer resumes at the line end in the mode it was in, having emitted only a comment token, which
+   the parser drops (`comment_any_bytes`, `comment_token_header/text`, `comment_one_token`,
+   `comment_invisible`); trailing blanks, tabs and CRs are not part of it (`comment_trim`);
+ * the token stream depends on the lexer state only through the unread input (`lexFuel_erase`); a
+   run of blanks where the lexer looks for the next token is invisible, and any run can replace
+   any other (`blank_run_invisible`, `blank_runs_equivalent`);
+ * at every token boundary the lexer reaches (`Reach`), replacing the blank run there by another
+   one, or putting a comment line there, leaves the parsed content unchanged
+   (`layout_invariance_at_boundary`, `boundary_blank_runs`, `boundary_comment`);
+ * the parser's outcome does not depend on token positions, and diagnostics move with the tokens
+   they point at (`positions_irrelevant`, `diagnostics_move_with_tokens`);
  * keywords, type names, booleans, the stream/function token, the wait bit and the direction are
-   classified and valued through their upper-case form, so letter case is irrelevant
-   (`keyword_case`, `header_tokens_upper`).
-`layout_invariance_partial`: the corollary "two admissible layouts of one token sequence give
-equal token kinds and values" for whole texts needs the lexer refinement against the token
-grammar (DESIGN §6.4-L2), which is not completed; it is exercised by the metamorphic layout
-suite on the real code and by the correspondence run on both renderings.
+   classified and valued through their upper-case form (`keyword_case`, `header_tokens_upper`).
+`layout_invariance_partial`: the statement for a whole text with several edits at once needs that
+the tokens lexed before an edited boundary do not depend on what follows it (lexer locality,
+Proofs/LexLocal has the building blocks); it is exercised by the metamorphic layout suite on the
+real code and by the correspondence run on both renderings.
 -/
 import SecsModel.Model.Lexer
 import SecsModel.Proofs.LexLayout
